@@ -36,10 +36,10 @@ BothCores   == {Core(pl, pcs, "both", len, <<f>>, "none") : pl \in GoodPLs, pcs 
 \* multi-file layouts: <=2 entries with every piece length / pieces string, 3 entries only where acceptance is possible
 LensS == {"-1", "0", "pl", "2^63-1"}
 Lens3 == {"-2^63", "-pl", "-1", "0", "1", "pl-1", "pl", "pl+1", "2^62", "2^63-1"}
-F2a == {Core(pl, pcs, "files", "absent", fs, pad) : pl \in PLs, pcs \in PcsLens, fs \in SeqsUpTo(LensS, 2), pad \in {"none", "neg"}}
+F2a == {Core(pl, pcs, "files", "absent", fs, "neg") : pl \in PLs, pcs \in PcsLens, fs \in SeqsUpTo(LensS, 2)}
 F2b == {Core(pl, pcs, "files", "absent", fs, pad) : pl \in GoodPLs, pcs \in GoodPcs, fs \in SeqsUpTo(Lens, 2), pad \in {"none", "neg"}}
 F2c == {Core(pl, pcs, "files", "absent", fs, pad) : pl \in PLs, pcs \in PcsLens, fs \in SeqsUpTo(Lens, 2), pad \in {"none", "neg"}}
-F3q == {Core("16384", pcs, "files", "absent", fs, pad) : pcs \in GoodPcs, fs \in [1 .. 3 -> Lens3], pad \in {"none", "neg"}}
+F3q == {Core("16384", 20, "files", "absent", fs, pad) : fs \in [1 .. 3 -> Lens3], pad \in {"none", "neg"}}
 F3t == {Core(pl, pcs, "files", "absent", fs, pad) : pl \in GoodPLs, pcs \in GoodPcs, fs \in [1 .. 3 -> Lens], pad \in PadModes}
 QuickCores    == SingleCores \cup F2a \cup F2b \cup F3q
 ThoroughCores == SingleCores \cup BothCores \cup F2c \cup F3t
